@@ -132,7 +132,8 @@ def run(mod, tier, seed, replay=None):
                     if fn.endswith(".json"):
                         shards.append(json.load(open(os.path.join(cdir, fn)))["history"])
             shards += mod.gen(rng, tier)
-        shards = [[dict(c) for c in sh] for sh in shards if sh]
+        # every case goes through a JSON round trip first: the oracles then see exactly what a replay file gives them
+        shards = [[json.loads(json.dumps(c)) for c in sh] for sh in shards if sh]
         _ids(shards)
         if hasattr(mod, "run_shards"):
             impl, model = mod.run_shards(shards)
